@@ -322,9 +322,6 @@ func repRunCase(id string, in bhInput, gen *bhGenerator, nrep int, child bool, r
 		for _, t := range b.Txs {
 			if t.K == "upgrade" {
 				c.Tags = append(c.Tags, "upgrade-"+t.S)
-				if !c.OracleOK {
-					c.Class = "upgrade:v1.7.5-concurrent-append"
-				}
 			}
 		}
 	}
